@@ -86,6 +86,12 @@ def ecdsa_ok(pub_xy, sig, data):
         return False
 
 
+def lz(pub_xy):
+    """[leading byte of X is zero, leading byte of Y is zero] of a raw fixed-width X || Y public key (value class of the key)."""
+    n = len(pub_xy) // 2
+    return [n > 0 and pub_xy[0] == 0, n > 0 and pub_xy[n] == 0]
+
+
 def rotkth(pubs):
     """Root-of-trust key table hash as fused in the device: hash of the table of key hashes (one key: its own hash)."""
     n = len(pubs[0]) // 2
@@ -150,7 +156,7 @@ def run(d, rom, waive=()):
                 in_table = True
                 root_ok = kh == rom["rotkth"]
         L(ev="RootKeyRecord", at=o, ca=ca, used=used, nKeys=nkeys, ctype=ctype, curveLen=clen, tableLen=tlen, keyAt=key_at, end=rkr_end,
-          keyInTable=in_table, rotkthOk=root_ok, _go=in_table and root_ok)
+          keyLz=lz(rootpub), keyInTable=in_table, rotkthOk=root_ok, _go=in_table and root_ok)
         signer = rootpub
         o = rkr_end
         if not ca:
@@ -168,7 +174,8 @@ def run(d, rom, waive=()):
                 udsha = hashlib.sha256(d[o + 12 + 2 * ilen:o + sigoff]).hexdigest()[:16]
                 # signed: root key record || ISK header || ISK public key || user data, by the root key
                 ok = ecdsa_ok(rootpub, d[o + sigoff:o + sigoff + 2 * clen], d[certoff + 12:o + sigoff])
-            L(ev="IskCert", at=o, sigOff=N(sigoff), constraints=W(constraints), iskType=itype_, iskLen=ilen, hasUserData=hasud,
+            L(ev="IskCert", at=o, sigOff=N(sigoff), constraints=W(constraints), iskType=itype_, iskLen=ilen, iskLz=lz(iskpub), hasUserData=hasud,
+              sigLz=lz(d[o + sigoff:o + sigoff + 2 * clen]) if fits else [False, False],   # information: r / s with a leading zero byte
               userDataLen=N(udlen) if udlen >= 0 else -1, udSha=udsha, signedFrom=certoff + 12, signedTo=N(o + sigoff), sigLen=2 * clen, ok=ok,
               end=N(o + sigoff + 2 * clen), _go=ok)
             o = o + sigoff + 2 * clen
@@ -177,7 +184,8 @@ def run(d, rom, waive=()):
         siglen = len(signer)
         need(o, siglen)
         ok = ecdsa_ok(signer, d[o:o + siglen], d[:o])
-        L(ev="VerifyBlock0", frm=0, to=o, sigAt=o, sigLen=siglen, digestLen=siglen // 2, ok=ok, end=o + siglen, _go=ok and o + siglen == b0len)
+        L(ev="VerifyBlock0", frm=0, to=o, sigAt=o, sigLen=siglen, digestLen=siglen // 2, ok=ok, end=o + siglen, sigLz=lz(d[o:o + siglen]),
+          _go=ok and o + siglen == b0len)
         # ---- key derivation key
         kdk = None
         if rom["enc"]:
